@@ -924,7 +924,7 @@ HIST_ALPHABETS = ('U', 'G')
 def hist_jobs(tier):
     """(label, module, cfg, workers, extra) -- started first: the walks below run while the other TLC jobs are busy"""
     jobs = [('export-history-%s' % a, 'EX_GridHistory', 'EX_GridHistory_%s_%s.cfg' % (a, tier), 1, None) for a in HIST_ALPHABETS]
-    jobs += [('history-design-%s' % a, 'MC_GridHistory', 'MC_GridHistory_%s.cfg' % a, 2, ['-continue']) for a in HIST_ALPHABETS]
+    jobs += [('history-design-%s' % a, 'MC_GridHistory', 'MC_GridHistory_%s.cfg' % a, 1, ['-continue']) for a in HIST_ALPHABETS]
     return jobs
 
 
@@ -964,13 +964,23 @@ def validate_hist_events(ctx, fxh, canary=True):
             raise Machinery('no history evaluation was logged')
         return {}
     evs = [dict(e, id=i) for i, (e, _, _, _) in enumerate(fxh.events)]
-    _, bad, res = validate_trace('Trace_GridHistory', 'Trace_GridHistory.cfg', evs, timeout=900)
+    # canaries ride along in the same TLC run: a value off by 1.5e-12 and a grid shifted by one native point, written into
+    # copies of evaluations of a long-lived model on a restricted grid
+    cand = [e for e in evs if canary and e['plo'] > 0 and e['oc'] and e['cut'] and e['lo'] > 0] if canary else []
+    extra = []
+    if cand:
+        extra = [dict(cand[0], dev=cand[0]['tol'] + 5, id=len(evs)), dict(cand[-1], lo=cand[-1]['lo'] + 1, id=len(evs) + 1)]
+    _, bad, res = validate_trace('Trace_GridHistory', 'Trace_GridHistory.cfg', evs + extra, timeout=900)
     ctx.add_tlc('trace-grid-history', res, counts=False)
     if res.postcondition_false and not bad:
         raise Machinery('history trace spec did not consume the whole trace:\n' + res.out[-1500:])
+    canary_bad = {(x['id'], x['why']) for x in bad if x['id'] >= len(evs)}
+    bad = [x for x in bad if x['id'] < len(evs)]
+    res.printed = [pr for pr in res.printed if not (isinstance(pr[1], dict) and pr[1].get('id', -1) >= len(evs))]
     classes = {c['id']: c['cls'] for c in res.tagged('CLS')}
     if len(classes) != len(evs):
         raise Machinery('history trace spec classified %d of %d events' % (len(classes), len(evs)))
+    fxh.inexact += sum(1 for c in res.tagged('CLS') if not c['exact'])
     why = {}
     for x in bad:
         why.setdefault(x['id'], []).append(x['why'])
@@ -993,22 +1003,19 @@ def validate_hist_events(ctx, fxh, canary=True):
         for c in ('after-full-grid', 'full-after-window', 'same-start-other-length', 'same-grid-again'):
             if not any(k[1] == c for k in count):
                 raise Machinery('vacuous: no evaluation of class %s in the history walks' % c)
-    good = [e for e in evs if e['id'] not in why and classes[e['id']] != 'first-evaluation' and e['oc'] and e['cut']]
-    if good:
-        c1 = dict(good[0], dev=good[0]['tol'] + 5)                         # a value off by 1.5e-12
-        c2 = dict(good[-1], lo=good[-1]['lo'] + 1, id=good[-1]['id'] + len(evs))   # a grid shifted by one native point
-        _, bad2, _ = validate_trace('Trace_GridHistory', 'Trace_GridHistory.cfg', [c1, c2])
-        got = {(x['id'], x['why']) for x in bad2}
-        if (c1['id'], 'value') not in got or (c2['id'], 'clip') not in got:
-            raise Machinery('canary accepted: history trace validation is vacuous (%r)' % (sorted(got),))
+    if extra:
+        if (len(evs), 'value') not in canary_bad or (len(evs) + 1, 'clip') not in canary_bad:
+            if cand[0]['id'] not in why and cand[-1]['id'] not in why:
+                raise Machinery('canary accepted: history trace validation is vacuous (%r)' % (sorted(canary_bad),))
     elif not ctx.has_violations():
-        raise Machinery('no accepted restricted evaluation available for the history canary')
+        raise Machinery('no evaluation of a long-lived model on a restricted grid available for the history canary')
     return count
 
 
 def run_histories(ctx, exports, q):
     from .. import history
     fh, fxh, behs = hist_fixture(ctx, exports)
+    _t(ctx, 'history exports ready')
     rng = random.Random(ctx.seed * 6007 + 29)
     nbeh = 0
     try:
@@ -1016,16 +1023,24 @@ def run_histories(ctx, exports, q):
         for a in HIST_ALPHABETS:
             alpha = fxh.alphas[a]
             for i, b in enumerate(behs[a]):
+                ws = [e['w'] for e in b['evals']]
+                # quick tier: every ordered pair of requests that TLC reports as colliding for an under-keyed memo (same
+                # size / first point / end points; also with the full grid in between) on every kind, a third of the rest
+                collide = (ws[0], ws[-1]) in alpha.collide
                 for kind in fh.KINDS:
-                    if q and len(b['evals']) == 3 and (i + fh.KINDS.index(kind)) % 3:
-                        continue                                   # quick: a behaviour with the full grid in between on one kind
+                    if q and len(ws) == 3 and (not collide or (i + fh.KINDS.index(kind)) % 2):
+                        continue
+                    if q and not collide and rng.random() > 0.34:
+                        continue
                     T = rng.choice(fh.T_VALUES[kind])
                     mix = rng.choice(fh.MIX_VALUES[kind])
                     fh.replay_behaviour(fxh, alpha, kind, T, mix, b['evals'])
                     nbeh += 1
         # Functional walks: request, temperature and mixing ratio change on one long-lived model
         scs = fh.scenarios(fxh, thorough=not q)
-        nw = history.run_history(ctx, scs, 8 if q else 30)
+        _t(ctx, 'history behaviours replayed')
+        nw = history.run_history(ctx, scs, 12 if q else 40)
+        _t(ctx, 'history walks validated')
         for s in scs:
             if s.evals == 0 and not ctx.has_violations():
                 raise Machinery('history scenario %s was never evaluated' % s.name)
@@ -1035,7 +1050,8 @@ def run_histories(ctx, exports, q):
     if fxh.not_thin and not ctx.has_violations():
         raise Machinery('history fixtures are not optically thin (the exp(-10) cut-off could fire): %r' % (fxh.not_thin[:3],))
     ctx.note('histories: %d behaviours of EX_GridHistory replayed on long-lived models, %d set/eval walks over %d scenarios, '
-             '%d trace events, %d full-grid references of fresh models' % (nbeh, nw, len(scs), len(fxh.events), fxh.nrefs))
+             '%d trace events, %d full-grid references of fresh models; %d evaluations returned a grid other than the documented '
+             'clip Grid!GClip of the request (not prescribed by the statement)' % (nbeh, nw, len(scs), len(fxh.events), fxh.nrefs, fxh.inexact))
     ctx.add_sample(dict(history_event={k: (v if not isinstance(v, list) or len(v) < 8 else v[:8] + ['...']) for k, v in fxh.events[0][0].items()},
                         behaviour=behs['U'][-1]))
 
